@@ -78,7 +78,7 @@ let () =
   (* which properties a predicate speaks about *)
   let relevant name = pid = "" || List.mem pid (match name with
     | "mon16" -> ["C16"] | "eager_b" -> ["C08"] | "runE" -> ["C03"; "C08"] | "runC" -> ["C03"; "C10"] | "runK" -> ["C03"; "C07"]
-    | "chk" -> ["C03"; "C11"; "C12"] | "chkN" -> ["C11"; "C12"] | "chkN-strict" -> ["C11"] | "once_b" -> ["C11"; "C12"] | "bal_b" -> ["C02"; "C05"] | "c05_b" -> ["C04"; "C05"] | "race_b" -> ["C06"] | "wait_b" -> ["C19"] | _ -> []) in
+    | "chk" -> ["C03"; "C11"; "C12"] | "chkN" -> ["C11"; "C12"] | "chkN-strict" -> ["C11"] | "once_b" -> ["C11"; "C12"] | "bal_b" -> ["C02"; "C05"] | "c05_b" -> ["C04"; "C05"] | "race_b" -> ["C06"] | "wait_b" -> ["C19"] | "chain_b" -> ["C10"] | "zip_b" -> ["C09"] | _ -> []) in
   let nfail = ref 0 and neval = ref 0 in
   (try while true do
     let case = input_line cases in let trace = input_line traces in
@@ -103,6 +103,8 @@ let () =
          if comb = "merge" then check "runE" (lazy (some (runE polls)));
          if comb = "merge" then check "eager_b" (lazy (eager_b live));
          if comb = "chain" then check "runC" (lazy (some (runC polls)));
+         if comb = "chain" then check "chain_b" (lazy (chain_b live));                         (* C10_sequential_predicate_holds *)
+         if comb = "zip" then check "zip_b" (lazy (zip_b (nat_of_int n) live));                (* C09_rows_predicate_holds *)
          (* the two theorems speak about histories that have not unwound: a trace in which a child panicked is left to the other checks *)
          let nopanic = not (List.exists (function EAns APanic -> true | _ -> false) live) in
          if comb = "race" && nopanic then check "race_b" (lazy (race_b live));                    (* C06_result_predicate_holds *)
